@@ -32,13 +32,24 @@ Variables (b64 : B -> string) (unb64 : string -> B).
 (* type_hint: {'!b': str(base64.standard_b64encode(object), 'ascii')} *)
 Definition type_hint (b : B) : jv := JObj [(BANG, JStr (b64 b))].
 
-(* type_reverse, the object_hook: len(object) != 1 -> object; no '!b' key -> object; else decode.
-   (A non-string under a lone '!b' makes the Python raise; the model leaves the object alone - no
-   statement below reaches that case.) *)
-Definition type_reverse (kv : list (string * jv)) : jv :=
+(* dict access as the callers use it; KeyError = None *)
+Fixpoint lookup (k : string) (kv : list (string * jv)) : option jv :=
   match kv with
-  | [(k, JStr s)] => if String.eqb k BANG then JBytes (unb64 s) else JObj kv
-  | _ => JObj kv
+  | [] => None
+  | (k', v) :: t => if String.eqb k k' then Some v else lookup k t
+  end.
+
+(* base64.standard_b64decode(encoded) on a JSON value.  (A non-string makes the Python raise; the
+   model returns [dflt] - no statement below reaches that case.) *)
+Definition b64decode_value (dflt encoded : jv) : jv :=
+  match encoded with JStr s => JBytes (unb64 s) | _ => dflt end.
+
+(* type_reverse, the object_hook: len(object) != 1 -> object; no '!b' key -> object; else decode *)
+Definition type_reverse (object : list (string * jv)) : jv :=
+  if negb (Nat.eqb (length object) 1) then JObj object else
+  match lookup BANG object with
+  | None => JObj object
+  | Some encoded => b64decode_value (JObj object) encoded
   end.
 
 (* json.dumps(default=type_hint): every bytes leaf replaced by its hint *)
@@ -81,12 +92,6 @@ Variables (dumps : jv -> B) (loads : B -> option jv).
 Definition serialize (v : jv) : B := dumps (hint_tree v).
 Definition deserialize (data : B) : option jv := option_map reverse_tree (loads data).
 
-(* dict access as the callers use it *)
-Fixpoint lookup (k : string) (kv : list (string * jv)) : option jv :=
-  match kv with
-  | [] => None
-  | (k', v) :: t => if String.eqb k k' then Some v else lookup k t
-  end.
 Definition field (k : string) (v : jv) : option jv := match v with JObj kv => lookup k kv | _ => None end.
 Definition field_bytes (k : string) (v : jv) : option B :=
   match field k v with Some (JBytes b) => Some b | _ => None end.
